@@ -38,7 +38,8 @@ for d in sorted(glob.glob(os.path.join(HOME, "seeded", "C*-s*"))):
     ear = r.get("earlier_evaluations") or []
     first = ear[0].get("caught") if ear else r.get("caught")
     now = r.get("caught")
-    cell = lambda v: "caught" if v else "MISSED"
+    other = r.get("caught_by_other_check")
+    cell = lambda v: "caught" if v else ("missed by this check; caught by " + other["check"] if other else "MISSED")
     out.append(f"| {sid} | {meta.get('summary', '')[:230].replace('|', '/')} | {meta.get('needs', '')[:160].replace('|', '/')} | {cell(first)} | {cell(now)} | {notes.get(sid, '-')} |\n")
 open(p, "w").write(s + "".join(out))
 print("DESIGN.md regenerated tail:", len(out), "blocks")
